@@ -1,6 +1,8 @@
 import OpcuaVerif.Model.C07
+import OpcuaVerif.Proofs.C08
 
-/-! Helper lemmas for C07: splitting, chunk construction, size arithmetic, the unsecured path. -/
+/-! Helper lemmas for C07: splitting, chunk construction, size arithmetic, the receive path on
+chunks the sender made. -/
 namespace OpcuaVerif.C07
 open OpcuaVerif.C09
 
@@ -106,8 +108,7 @@ theorem mkChunks_get (s : Sender) (t : MType) (seq req : Nat) : ∀ (bs : List B
         · omega
 
 
-
-/-- law of the sender's primitives used for sizes -/
+/-- laws of the sender's primitives used for sizes -/
 structure SLaws (SC : SCrypto) : Prop where
   macLen : ∀ p d, (SC.mac p d).length = p.symSig
   aesLen : ∀ d, (SC.aesEnc d).length = d.length
@@ -115,16 +116,25 @@ structure SLaws (SC : SCrypto) : Prop where
 theorem setSize_length (d : Bytes) (n : Nat) (h : 8 ≤ d.length) : (setSize d n).length = d.length := by
   simp [setSize, u32le, List.length_take, List.length_drop]; omega
 
-/-- **Padding arithmetic (symmetric)**: sequence header + body + padding + signature is a whole
-number of AES blocks, and the padding is 1..16 bytes. -/
-theorem sym_block_aligned (s : Sender) (t : MType) (ht : t ≠ .opn) (hs : secured s) (body : Nat) :
+theorem symSig_le (p : Policy) : p.symSig ≤ 32 := by cases p <;> simp [Policy.symSig]
+
+/-- MSG/CLO chunks are not padded unless they are encrypted -/
+theorem paddingSize_noenc (s : Sender) (t : MType) (ht : t ≠ .opn) (hm : s.mode ≠ .signEncrypt)
+    (body : Nat) : paddingSize s t body = (0, 0) := by
+  unfold paddingSize paddingSizeW
+  split
+  · simp [SFixes.current, ht, hm]
+  · rfl
+
+/-- **Padding arithmetic (symmetric, encrypted)**: sequence header + body + padding + signature is a
+whole number of AES blocks; the padding is 1..16 bytes with a one-byte length. -/
+theorem se_block_aligned (s : Sender) (t : MType) (ht : t ≠ .opn) (hp : s.policy ≠ .none)
+    (hm : s.mode = .signEncrypt) (body : Nat) :
     (8 + body + (paddingSize s t body).1 + sigSize s t) % 16 = 0 ∧
-    1 ≤ (paddingSize s t body).1 ∧ (paddingSize s t body).1 ≤ 16 := by
-  obtain ⟨hp, hm⟩ := hs
-  have hm' : s.mode ≠ .none := by rcases hm with h | h <;> simp [h]
+    1 ≤ (paddingSize s t body).1 ∧ (paddingSize s t body).1 ≤ 16 ∧ (paddingSize s t body).2 = 1 := by
   have hk : minPadding s.policy.symSig = 1 := by
     unfold minPadding; cases s.policy <;> simp [Policy.symSig]
-  cases t <;> simp_all [paddingSize, blockAndKey, sigSize] <;> (split <;> omega)
+  cases t <;> simp_all [paddingSize, paddingSizeW, blockAndKey, sigSize, SFixes.current] <;> (split <;> omega)
 
 /-- **Padding arithmetic (asymmetric)**: what is RSA-encrypted is a whole number of plain-text blocks. -/
 theorem asym_block_aligned (s : Sender) (hs : secured s) (body : Nat)
@@ -132,7 +142,8 @@ theorem asym_block_aligned (s : Sender) (hs : secured s) (body : Nat)
     (8 + body + (paddingSize s .opn body).1 + sigSize s .opn) % (s.remoteKey - s.policy.rsaOverhead) = 0 := by
   obtain ⟨hp, hm⟩ := hs
   have hm' : s.mode ≠ .none := by rcases hm with h | h <;> simp [h]
-  simp only [paddingSize, hp, hm', ne_eq, not_false_eq_true, and_self, if_true, blockAndKey, sigSize, if_false]
+  simp only [paddingSize, paddingSizeW, hp, hm', ne_eq, not_false_eq_true, and_self, if_true, blockAndKey,
+    sigSize, if_false, not_true_eq_false, false_and, and_false]
   have hp0 : 0 < s.remoteKey - s.policy.rsaOverhead := by omega
   generalize s.remoteKey - s.policy.rsaOverhead = p at *
   generalize minPadding s.remoteKey = mp
@@ -150,28 +161,42 @@ theorem asym_block_aligned (s : Sender) (hs : secured s) (body : Nat)
       = (8 + body + s.ownKey + mp) + (if (8 + body + s.ownKey + mp) % p ≠ 0 then p - (8 + body + s.ownKey + mp) % p else 0) := by omega
   rw [e]; exact this
 
-/-- length of a secured symmetric chunk: plain chunk + padding + signature -/
+/-- the padding of an encrypted MSG/CLO chunk, explicitly -/
+theorem paddingSize_se (s : Sender) (t : MType) (ht : t ≠ .opn) (hp : s.policy ≠ .none)
+    (hm : s.mode = .signEncrypt) (body : Nat) :
+    (paddingSize s t body).1 = 1 + (if (8 + body + s.policy.symSig + 1) % 16 ≠ 0
+      then 16 - (8 + body + s.policy.symSig + 1) % 16 else 0) := by
+  have hk : minPadding s.policy.symSig = 1 := by
+    unfold minPadding; cases s.policy <;> simp [Policy.symSig]
+  cases t <;> simp_all [paddingSize, paddingSizeW, blockAndKey, sigSize, SFixes.current]
+
+theorem padBytes_length (ps mp : Nat) : (padBytes ps mp).length = ps := by
+  unfold padBytes
+  split
+  · simp_all
+  · split
+    · simp
+    · simp; omega
+
+theorem secHdr_sym_length (s : Sender) (t : MType) (ht : t ≠ .opn) : (secHdr s t).length = 4 := by
+  cases t <;> simp_all [secHdr, u32le]
+
+theorem sigSize_sym (s : Sender) (t : MType) (ht : t ≠ .opn) : sigSize s t = s.policy.symSig := by
+  cases t <;> simp_all [sigSize]
+
+/-- length of a secured MSG/CLO chunk: plain chunk + padding + signature -/
 theorem sym_secured_length (SC : SCrypto) (laws : SLaws SC) (s : Sender) (t : MType) (ht : t ≠ .opn)
     (hs : secured s) (chunk : Bytes) (hc : 24 ≤ chunk.length) :
     (applySecurity SC s t chunk).length =
       chunk.length + (paddingSize s t (chunk.length - 24)).1 + s.policy.symSig := by
-  have hsh : (secHdr s t).length = 4 := by cases t <;> simp_all [secHdr, u32le]
-  have hsig : sigSize s t = s.policy.symSig := by cases t <;> simp_all [sigSize]
-  have hpl : ∀ ps mp, ps = 0 ∨ 1 ≤ ps → (padBytes ps mp).length = ps := by
-    intro ps mp h
-    unfold padBytes
-    split
-    · simp_all
-    · split
-      · simp
-      · simp; omega
-  have hpad := (sym_block_aligned s t ht hs (chunk.length - 24)).2.1
-  simp only [applySecurity, hs, if_true]
-  have hd : (addPadSig s t chunk).length = chunk.length + (paddingSize s t (chunk.length - 24)).1 + s.policy.symSig := by
-    simp only [addPadSig, hsh, hsig]
+  have hsh := secHdr_sym_length s t ht
+  have hsig := sigSize_sym s t ht
+  have hd : (addPadSigW SFixes.current s t chunk).length =
+      chunk.length + (paddingSize s t (chunk.length - 24)).1 + s.policy.symSig := by
+    simp only [addPadSigW, hsh, hsig, paddingSize]
     rw [setSize_length _ _ (by simp; omega)]
-    simp only [List.length_append, List.length_replicate]
-    rw [hpl _ _ (Or.inr hpad)]
+    simp only [List.length_append, List.length_replicate, padBytes_length]
+  simp only [applySecurity, applySecurityW, hs, if_true]
   cases t with
   | opn => exact absurd rfl ht
   | msg =>
@@ -187,15 +212,287 @@ theorem sym_secured_length (SC : SCrypto) (laws : SLaws SC) (s : Sender) (t : MT
       omega
     · simp only [List.length_append, List.length_take, laws.macLen]; omega
 
+/-! ### the body budget -/
+
+theorem shrink_le (fits : Nat → Bool) : ∀ b, shrink fits b ≤ b := by
+  intro b
+  induction b with
+  | zero => simp [shrink]
+  | succ b ih => unfold shrink; split <;> omega
+
+theorem shrink_fits (fits : Nat → Bool) : ∀ b, shrink fits b ≠ 0 → fits (shrink fits b) = true := by
+  intro b
+  induction b with
+  | zero => simp [shrink]
+  | succ b ih =>
+    unfold shrink
+    split
+    · rename_i h; intro _; exact h
+    · exact ih
+
+/-- headers + body + padding + signature grows with the body (MSG/CLO) -/
+theorem paddedSize_mono (s : Sender) (t : MType) (ht : t ≠ .opn) (hs : secured s) (b b' : Nat)
+    (h : b ≤ b') : paddedSizeW SFixes.current s t b ≤ paddedSizeW SFixes.current s t b' := by
+  obtain ⟨hp, hm⟩ := hs
+  have hsig := sigSize_sym s t ht
+  unfold paddedSizeW
+  rcases hm with hm | hm
+  · have h1 := paddingSize_noenc s t ht (by simp [hm]) b
+    have h2 := paddingSize_noenc s t ht (by simp [hm]) b'
+    unfold paddingSize at h1 h2
+    rw [h1, h2]; simp; omega
+  · have e1 := paddingSize_se s t ht hp hm b
+    have e2 := paddingSize_se s t ht hp hm b'
+    unfold paddingSize at e1 e2
+    rw [e1, e2, hsig]
+    have hx : ∀ x y : Nat, x ≤ y →
+        x + (if x % 16 ≠ 0 then 16 - x % 16 else 0) ≤ y + (if y % 16 ≠ 0 then 16 - y % 16 else 0) := by
+      intro x y hxy; split <;> split <;> omega
+    have := hx (8 + b + s.policy.symSig + 1) (8 + b' + s.policy.symSig + 1) (by omega)
+    omega
 
 
 theorem le32_u32le (n : Nat) (h : n < 4294967296) :
     le32 (n % 256) (n / 256 % 256) (n / 65536 % 256) (n / 16777216 % 256) = n := by
   unfold le32; omega
 
+/-- the first 16 bytes of a MSG/CLO chunk: message header and symmetric security header -/
+def hdr16 (s : Sender) (t : MType) (f : Fin) (n : Nat) : Bytes :=
+  t.code ++ [f.byte] ++ u32le n ++ u32le s.chanId ++ u32le s.tokenId
+
+theorem hdr16_length (s : Sender) (t : MType) (f : Fin) (n : Nat) : (hdr16 s t f n).length = 16 := by
+  cases t <;> simp [hdr16, MType.code, u32le]
+
+theorem chunkWith_eq (s : Sender) (t : MType) (ht : t ≠ .opn) (f : Fin) (n seq req : Nat) (body : Bytes) :
+    chunkWith s t f n seq req body = hdr16 s t f n ++ (u32le seq ++ u32le req ++ body) := by
+  cases t <;> simp_all [chunkWith, hdr16, secHdr]
+
+theorem setSize_hdr16 (s : Sender) (t : MType) (f : Fin) (a b : Nat) (x : Bytes) :
+    setSize (hdr16 s t f a ++ x) b = hdr16 s t f b ++ x := by
+  cases t <;> simp [setSize, hdr16, MType.code, u32le]
+
 theorem newChunk_length (s : Sender) (t : MType) (f : Fin) (seq req : Nat) (body : Bytes) :
     (newChunk s t f seq req body).length = 12 + (secHdr s t).length + 8 + body.length := by
-  cases t <;> simp [newChunk, MType.code, u32le] <;> omega
+  cases t <;> simp [newChunk, chunkWith, MType.code, u32le] <;> omega
+
+/-- the receive path on anything that starts with a well-formed MSG/CLO header whose size field is right -/
+theorem recvWith_hdr16 (F : Fixes) (C : Crypto) (ch : Chan) (s : Sender) (t : MType) (ht : t ≠ .opn)
+    (f : Fin) (n : Nat) (x : Bytes) (hn : n < 4294967296) (hl : 16 + x.length = n) :
+    recvWith F C ch (hdr16 s t f n ++ x) = (ch, recvSym F C ch (hdr16 s t f n ++ x) 16) := by
+  cases t with
+  | opn => exact absurd rfl ht
+  | msg =>
+    cases f <;>
+    · simp only [hdr16, MType.code, Fin.byte, u32le, List.cons_append, List.nil_append]
+      simp only [recvWith, rdHeader, le32_u32le _ hn]
+      simp; omega
+  | clo =>
+    cases f <;>
+    · simp only [hdr16, MType.code, Fin.byte, u32le, List.cons_append, List.nil_append]
+      simp only [recvWith, rdHeader, le32_u32le _ hn]
+      simp; omega
+
+/-- `verify_padding` on a well-formed one-byte-length padding returns where the padding starts -/
+theorem verifyPadding_good (F : Fixes) (a m : Bytes) (ps keySize : Nat) (hk : keySize ≤ 256)
+    (h1 : 1 ≤ ps) (h2 : ps ≤ 256) :
+    verifyPadding F (a ++ List.replicate ps (ps - 1) ++ m) keySize (a.length + ps) = .inr a.length := by
+  unfold verifyPadding
+  rw [if_neg (by omega)]
+  have hd : (List.drop (a.length + ps - 1) (a ++ List.replicate ps (ps - 1) ++ m)).headD 0 = ps - 1 := by
+    have : a.length + ps - 1 = a.length + (ps - 1) := by omega
+    rw [this, List.append_assoc, List.drop_append]
+    simp only [Nat.add_sub_cancel_left]
+    have : List.drop (a.length + (ps - 1)) a = [] := List.drop_of_length_le (by omega)
+    rw [this, List.nil_append, List.drop_append]
+    simp only [List.drop_replicate, List.length_replicate]
+    have : ps - (ps - 1) = 1 := by omega
+    rw [this]; simp
+  simp only [hd]
+  have hlen : ¬ (a.length + ps < 1 ∨ a.length + ps > (a ++ List.replicate ps (ps - 1) ++ m).length) := by
+    simp; omega
+  have hlen2 : ¬ (ps - 1 + 1 > a.length + ps) := by omega
+  simp only [hlen, hlen2, and_false, if_false]
+  have e : a.length + ps - (ps - 1) - 1 = a.length := by omega
+  have e2 : ps - 1 + 1 = ps := by omega
+  rw [e, e2]
+  have : List.take ps (List.drop a.length (a ++ List.replicate ps (ps - 1) ++ m)) = List.replicate ps (ps - 1) := by
+    rw [List.append_assoc, List.drop_left', List.take_left'] <;> simp
+  rw [this]
+  simp
+
+/-- laws tying the sender's primitives to the receiver's -/
+structure RTLaws (SC : SCrypto) (C : Crypto) : Prop extends SLaws SC where
+  macOk : ∀ p d, C.hmacOk p d (SC.mac p d) = true
+  aesInv : ∀ d, C.aesDec (SC.aesEnc d) = some d
+
+/-- what `apply_security` puts on the wire for a MSG/CLO chunk, in normal form -/
+theorem applySecurity_sym (SC : SCrypto) (s : Sender) (t : MType) (ht : t ≠ .opn) (hs : secured s)
+    (f : Fin) (seq req : Nat) (body : Bytes) :
+    let ps := (paddingSize s t body.length).1
+    let mp := (paddingSize s t body.length).2
+    let n := 24 + body.length + ps + s.policy.symSig
+    let signed := hdr16 s t f n ++ (u32le seq ++ u32le req ++ body ++ padBytes ps mp)
+    applySecurity SC s t (newChunk s t f seq req body) =
+      if s.mode = .signEncrypt then hdr16 s t f n ++ SC.aesEnc ((signed ++ SC.mac s.policy signed).drop 16)
+      else signed ++ SC.mac s.policy signed := by
+  intro ps mp n signed
+  have hsh := secHdr_sym_length s t ht
+  have hsig := sigSize_sym s t ht
+  have hL : (newChunk s t f seq req body).length = 24 + body.length := by
+    rw [newChunk_length, hsh]
+  have hd : addPadSigW SFixes.current s t (newChunk s t f seq req body) =
+      signed ++ List.replicate s.policy.symSig 0 := by
+    simp only [addPadSigW, hsh, hsig, hL]
+    have e : 24 + body.length - (12 + 4 + 8) = body.length := by omega
+    rw [e]
+    show setSize _ _ = _
+    simp only [newChunk, chunkWith_eq s t ht, List.append_assoc]
+    rw [setSize_hdr16]
+    simp only [List.length_append, hdr16_length, List.length_replicate, padBytes_length, u32le,
+      List.length_cons, List.length_nil]
+    have : 16 + (0 + 1 + 1 + 1 + 1 + (0 + 1 + 1 + 1 + 1 + (body.length + ((paddingSizeW SFixes.current s t body.length).1 + s.policy.symSig)))) = n := by
+      show _ = 24 + body.length + (paddingSize s t body.length).1 + s.policy.symSig
+      unfold paddingSize; omega
+    rw [this]
+    simp [signed, ps, mp, paddingSize, u32le]
+  have hsl : signed.length = n - s.policy.symSig := by
+    simp [signed, hdr16_length, padBytes_length, u32le, n]; omega
+  simp only [applySecurity, applySecurityW, hs, if_true, hd]
+  have htake : (signed ++ List.replicate s.policy.symSig 0).take
+      ((signed ++ List.replicate s.policy.symSig 0).length - s.policy.symSig) = signed := by
+    rw [List.length_append, List.length_replicate, Nat.add_sub_cancel]
+    exact List.take_left' rfl
+  cases t with
+  | opn => exact absurd rfl ht
+  | msg =>
+    simp only [htake]
+    split
+    · congr 1
+    · rfl
+  | clo =>
+    simp only [htake]
+    split
+    · congr 1
+    · rfl
+
+/-- **One secured chunk survives**: what the sender secures, the matching receiver verifies,
+decrypts, strips (signature and padding) and hands on as exactly the chunk the sender started from. -/
+theorem recv_secured_id (SC : SCrypto) (C : Crypto) (laws : RTLaws SC C) (claws : CryptoLaws C)
+    (s : Sender) (hs : secured s) (t : MType) (ht : t ≠ .opn) (ch : Chan) (hcp : ch.policy = s.policy)
+    (hcm : ch.mode = s.mode) (hck : ch.keys = true) (f : Fin) (seq req : Nat) (body : Bytes)
+    (hn : 24 + body.length + 16 + 32 < 4294967296) :
+    recv C ch (applySecurity SC s t (newChunk s t f seq req body)) =
+      (ch, .ok (newChunk s t f seq req body)) := by
+  have hsec : ch.secured := by unfold Chan.secured; rw [hcp, hcm]; exact hs
+  have hsig32 := symSig_le s.policy
+  have hnew : newChunk s t f seq req body = hdr16 s t f (24 + body.length) ++ (u32le seq ++ u32le req ++ body) := by
+    unfold newChunk; rw [secHdr_sym_length s t ht, chunkWith_eq s t ht]
+  rw [applySecurity_sym SC s t ht hs f seq req body]
+  by_cases hm : s.mode = .signEncrypt
+  · -- SignAndEncrypt
+    obtain ⟨hal, hp1, hp16, hmp⟩ := se_block_aligned s t ht hs.1 hm body.length
+    rw [sigSize_sym s t ht] at hal
+    simp only [hm, if_true, hmp]
+    generalize hps : (paddingSize s t body.length).1 = ps at *
+    have hpad : padBytes ps 1 = List.replicate ps (ps - 1) := by
+      unfold padBytes
+      rw [if_neg (by omega), if_pos rfl, Nat.mod_eq_of_lt (by omega)]
+    rw [hpad]
+    generalize hN : 24 + body.length + ps + s.policy.symSig = n
+    let a := hdr16 s t f n ++ (u32le seq ++ u32le req ++ body)
+    have hsigned : hdr16 s t f n ++ (u32le seq ++ u32le req ++ body ++ List.replicate ps (ps - 1))
+        = a ++ List.replicate ps (ps - 1) := by simp [a]
+    rw [hsigned]
+    generalize hmac : SC.mac s.policy (a ++ List.replicate ps (ps - 1)) = mac
+    have hmacl : mac.length = s.policy.symSig := by rw [← hmac]; exact laws.macLen _ _
+    have hal16 : a.length = 24 + body.length := by simp [a, hdr16_length, u32le]; omega
+    let full := a ++ List.replicate ps (ps - 1) ++ mac
+    have hfl : full.length = n := by simp [full, hal16, hmacl]; omega
+    have hdrop : full.drop 16 = (u32le seq ++ u32le req ++ body) ++ List.replicate ps (ps - 1) ++ mac := by
+      simp only [full, a, List.append_assoc]
+      rw [List.drop_left' (hdr16_length s t f n)]
+    have htake : full.take 16 = hdr16 s t f n := by
+      simp only [full, a, List.append_assoc]
+      rw [List.take_left' (hdr16_length s t f n)]
+    show recv C ch (hdr16 s t f n ++ SC.aesEnc (full.drop 16)) = _
+    have hwl : 16 + (SC.aesEnc (full.drop 16)).length = n := by
+      rw [laws.aesLen, List.length_drop, hfl]; omega
+    unfold recv
+    rw [recvWith_hdr16 _ C ch s t ht f n _ (by omega) hwl]
+    congr 1
+    have hsrc16 : (hdr16 s t f n ++ SC.aesEnc (full.drop 16)).drop 16 = SC.aesEnc (full.drop 16) :=
+      List.drop_left' (hdr16_length s t f n)
+    have himg : C08.image (hdr16 s t f n ++ SC.aesEnc (full.drop 16)) (full.drop 16) = full := by
+      unfold C08.image
+      rw [List.take_left' (hdr16_length s t f n), ← htake, List.take_append_drop]
+    have hsl : (hdr16 s t f n ++ SC.aesEnc (full.drop 16)).length = n := by
+      rw [List.length_append, hdr16_length]; exact hwl
+    rw [(C08.se_accept_iff C claws ch _ _ hsec (by rw [hcm, hm])).mpr]
+    refine ⟨by rw [hsl, hcp]; omega, hck, ?_, full.drop 16, ?_, ?_, 24 + body.length, ?_, ?_⟩
+    · rw [hsl]
+      have : n - 16 = 8 + body.length + ps + s.policy.symSig := by omega
+      rw [this]; exact hal
+    · rw [hsrc16]; exact laws.aesInv _
+    · rw [himg, hsl, hcp]
+      have e : n - s.policy.symSig = (a ++ List.replicate ps (ps - 1)).length := by
+        simp [hal16]; omega
+      rw [e]
+      simp only [full]
+      rw [List.take_left' rfl, List.drop_left' rfl, ← hmac]
+      exact laws.macOk _ _
+    · rw [himg, hsl, hcp]
+      have e : n - s.policy.symSig = a.length + ps := by omega
+      rw [e]
+      rw [← hal16]
+      exact verifyPadding_good _ a mac ps s.policy.symSig (by omega) hp1 (by omega)
+    · rw [himg, hnew]
+      unfold setSizeTrunc
+      simp only [full, a, List.append_assoc]
+      rw [setSize_hdr16]
+      have e : hdr16 s t f (24 + body.length) ++ (u32le seq ++ (u32le req ++ (body ++ (List.replicate ps (ps - 1) ++ mac))))
+          = (hdr16 s t f (24 + body.length) ++ (u32le seq ++ u32le req ++ body)) ++ (List.replicate ps (ps - 1) ++ mac) := by
+        simp only [List.append_assoc]
+      rw [e]
+      exact (List.take_left' (by simp [hdr16_length, u32le]; omega)).symm
+  · -- Sign
+    have hmode : s.mode = .sign := by rcases hs.2 with h | h; exact h; exact absurd h hm
+    have hpz := paddingSize_noenc s t ht hm body.length
+    simp only [hm, if_false, hpz, padBytes, if_true, List.append_nil, Nat.add_zero]
+    generalize hN : 24 + body.length + s.policy.symSig = n
+    let a := hdr16 s t f n ++ (u32le seq ++ u32le req ++ body)
+    show recv C ch (a ++ SC.mac s.policy a) = _
+    generalize hmac : SC.mac s.policy a = mac
+    have hmacl : mac.length = s.policy.symSig := by rw [← hmac]; exact laws.macLen _ _
+    have hal16 : a.length = 24 + body.length := by simp [a, hdr16_length, u32le]; omega
+    have hwire : a ++ mac = hdr16 s t f n ++ ((u32le seq ++ u32le req ++ body) ++ mac) := by
+      show (hdr16 s t f n ++ _) ++ mac = _
+      rw [List.append_assoc]
+    have hwl : (a ++ mac).length = n := by simp [hal16, hmacl]; omega
+    unfold recv
+    rw [hwire, recvWith_hdr16 _ C ch s t ht f n _ (by omega) (by
+      have := hwl; rw [hwire, List.length_append, hdr16_length] at this; exact this)]
+    congr 1
+    rw [← hwire]
+    rw [(C08.sign_accept_iff C ch _ _ hsec (by rw [hcm, hmode])).mpr]
+    refine ⟨by rw [hwl, hcp]; omega, hck, ?_, ?_⟩
+    · rw [hwl, hcp]
+      have e : n - s.policy.symSig = a.length := by omega
+      rw [e, List.take_left' rfl, List.drop_left' rfl, ← hmac]
+      exact laws.macOk _ _
+    · rw [hwl, hcp, hnew]
+      have e : n - s.policy.symSig = 24 + body.length := by omega
+      rw [e]
+      unfold setSizeTrunc
+      rw [hwire, setSize_hdr16]
+      have e2 : hdr16 s t f (24 + body.length) ++ ((u32le seq ++ u32le req ++ body) ++ mac)
+          = (hdr16 s t f (24 + body.length) ++ (u32le seq ++ u32le req ++ body)) ++ mac := by
+        simp only [List.append_assoc]
+      rw [e2]
+      refine (List.take_left' ?_).symm
+      rw [List.length_append, hdr16_length]
+      simp only [u32le, List.length_append, List.length_cons, List.length_nil]
+      omega
+
 
 /-- an unsecured channel returns a MSG/CLO chunk made by `MessageChunk::new` unchanged -/
 theorem recv_unsecured_id (F : Fixes) (C : Crypto) (ch : Chan) (hch : ¬ ch.secured) (s : Sender) (t : MType)
@@ -208,14 +505,14 @@ theorem recv_unsecured_id (F : Fixes) (C : Crypto) (ch : Chan) (hch : ¬ ch.secu
   | msg =>
     have hsh : (secHdr s .msg).length = 4 := by simp [secHdr, u32le]
     cases f <;>
-    · simp only [newChunk, MType.code, Fin.byte, secHdr, u32le, List.cons_append, List.nil_append,
+    · simp only [newChunk, chunkWith, MType.code, Fin.byte, secHdr, u32le, List.cons_append, List.nil_append,
         List.length_cons, List.length_nil] at hl ⊢
       simp only [recvWith, rdHeader, le32_u32le _ (by omega : 12 + (0 + 1 + 1 + 1 + 1) + 8 + body.length < 4294967296)]
       simp [recvSym, hns] <;> omega
   | clo =>
     have hsh : (secHdr s .clo).length = 4 := by simp [secHdr, u32le]
     cases f <;>
-    · simp only [newChunk, MType.code, Fin.byte, secHdr, u32le, List.cons_append, List.nil_append,
+    · simp only [newChunk, chunkWith, MType.code, Fin.byte, secHdr, u32le, List.cons_append, List.nil_append,
         List.length_cons, List.length_nil] at hl ⊢
       simp only [recvWith, rdHeader, le32_u32le _ (by omega : 12 + (0 + 1 + 1 + 1 + 1) + 8 + body.length < 4294967296)]
       simp [recvSym, hns] <;> omega
@@ -225,8 +522,8 @@ theorem bodyOf_newChunk (ch : Chan) (s : Sender) (t : MType) (ht : t ≠ .opn) (
     (body : Bytes) : bodyOf ch (newChunk s t f seq req body) = some (f.byte, body) := by
   cases t with
   | opn => exact absurd rfl ht
-  | msg => cases f <;> simp [bodyOf, newChunk, MType.code, Fin.byte, secHdr, u32le, rdHeader]
-  | clo => cases f <;> simp [bodyOf, newChunk, MType.code, Fin.byte, secHdr, u32le, rdHeader]
+  | msg => cases f <;> simp [bodyOf, newChunk, chunkWith, MType.code, Fin.byte, secHdr, u32le, rdHeader]
+  | clo => cases f <;> simp [bodyOf, newChunk, chunkWith, MType.code, Fin.byte, secHdr, u32le, rdHeader]
 
 theorem reassemble_mkChunks (ch : Chan) (s : Sender) (t : MType) (ht : t ≠ .opn) (seq req : Nat) :
     ∀ (bs : List Bytes) (i : Nat), bs ≠ [] → reassemble ch (mkChunks s t seq req i bs) = some bs.flatten := by
@@ -248,5 +545,6 @@ theorem reassemble_mkChunks (ch : Chan) (s : Sender) (t : MType) (ht : t ≠ .op
         rw [hm] at this
         simp only [reassemble, bodyOf_newChunk ch s t ht, Fin.byte, this]
         simp
+
 
 end OpcuaVerif.C07
